@@ -13,6 +13,8 @@ HEADER = ('From Coq Require Import List NArith.\n'
 from harness.impl.c16_blobs import (kind_id, content_id, user_content, AUX_FORMS, USER_FORMS,  # noqa (pure data module)
                                      RETURN_FORMS)
 
+LOADER_FORMS = ['function', 'function', 'lambda', 'partial', 'method', 'callable_object', 'empty_dict_callable',
+                'falsy_callable', 'len0_callable']
 CLEAN_DIRS = ['a', 'b', 'models', 'tex', 'Sub Dir', 'модели', 'sub']
 DAE_NAMES = ['doc.dae', 'scene.DAE', 'Model.Dae', 'x.dAe', 'second.dae', 'OTHER.DAE']
 NON_DAE = ['doc.dae.txt', 'dae', 'notes.txt', 'model.da', 'xdae', 'readme.DAE.bak']
@@ -44,6 +46,10 @@ class Interner(object):
 
 def rand_dir(rng, depth):
     return [rng.choice(CLEAN_DIRS) for _ in range(depth)]
+
+
+def images_basenames(aux):
+    return sorted({a[0].split('/')[-1] for a in aux})
 
 
 def gen_layout(rng, idx):
@@ -186,13 +192,26 @@ def gen_layout(rng, idx):
             if nm not in used and nm != zrel and nm not in [r[0] for r in renamed]:
                 renamed.append((nm, k))
     disk += renamed
+    # files with the images' names next to where a loaded document may later be exported
+    for i, p in enumerate(images_basenames(aux)):
+        for d in ('export_c16/deep/', 'export_c16/'):
+            if d + p not in used:
+                used.add(d + p)
+                disk.append((d + p, ['aux', 70 + i, 'normal']))
     # a decoy-free copy of a document in a different directory as well
     disk.append((zrel, ['zip']))
     # loads
     loads = []
 
     def add(src, target, zf=None, loader=False, ignore=False):
-        loads.append({'src': src, 'target': target, 'zip_filename': zf, 'loader': loader, 'ignore': ignore})
+        ld = {'src': src, 'target': target, 'zip_filename': zf, 'loader': loader, 'ignore': ignore}
+        if loader:
+            ld['loader_form'] = rng.choice(LOADER_FORMS)
+        if src in ('file', 'bytes') and rng.random() < 0.3:
+            ld['offset'] = rng.choice([1, 4, 7, 64, 1000])      # stream handed over at a non-zero position
+        if rng.random() < 0.3:
+            ld['write_first'] = rng.choice(['path', 'path', 'abspath', 'fileobj'])
+        loads.append(ld)
 
     zfs = [None] + [d[0] for d in docs]
     if decoys:
@@ -414,7 +433,7 @@ def run(ctx):
     # distribution
     dist = {'loads': 0, 'by_source': {}, 'with_user_loader': 0, 'with_zip_filename': 0, 'ignore': 0,
             'load_outcomes': {}, 'image_outcomes': {}, 'decoy_first': 0, 'only_decoys': 0, 'no_dae': 0,
-            'several_docs': 0, 'zip_variants': {}, 'memberless_archives': 0, 'aux_forms': {}, 'user_answers': {}, 'uppercase_ext_selected': 0, 'archive_file_names': {}, 'plain_documents_under_other_names': 0, 'depth_of_selected': {}, 'image_path_forms': {}}
+            'several_docs': 0, 'loader_forms': {}, 'stream_offsets': 0, 'write_before_data': {}, 'zip_variants': {}, 'memberless_archives': 0, 'aux_forms': {}, 'user_answers': {}, 'uppercase_ext_selected': 0, 'archive_file_names': {}, 'plain_documents_under_other_names': 0, 'depth_of_selected': {}, 'image_path_forms': {}}
     seen_h = set()
     for c, r in zip(cases, results):
         seen_h.add(core.canon_hash([c['members'], c['images'], c['loads']]))
@@ -447,6 +466,11 @@ def run(ctx):
             k = ld['src'] + (':zip' if ld['target'] == c['zip'] else ':dae')
             dist['by_source'][k] = dist['by_source'].get(k, 0) + 1
             dist['with_user_loader'] += bool(ld['loader'])
+            if ld.get('loader_form'):
+                dist['loader_forms'][ld['loader_form']] = dist['loader_forms'].get(ld['loader_form'], 0) + 1
+            dist['stream_offsets'] += bool(ld.get('offset'))
+            if ld.get('write_first'):
+                dist['write_before_data'][ld['write_first']] = dist['write_before_data'].get(ld['write_first'], 0) + 1
             dist['with_zip_filename'] += ld['zip_filename'] is not None
             dist['ignore'] += bool(ld['ignore'])
             dist['load_outcomes'][str(ob['code'])] = dist['load_outcomes'].get(str(ob['code']), 0) + 1
